@@ -270,6 +270,15 @@ def writer_cases(draw):
     recv.append(['stop'])
     cpm = draw(st.sampled_from([1, 2]))
     shutdown_rate = draw(st.sampled_from([2, 3]))
+  elif draw(st.integers(0, 2)) == 0:
+    # a steady trickle of never-seen metrics, a few seconds apart, under a create limit of 1-2 per minute: over a
+    # minute or two at most burst + rate * t files may appear
+    metrics = ['t%d' % i for i in range(draw(st.integers(6, 14)))]
+    recv = []
+    for i, m in enumerate(metrics):
+      recv.append(['store', m, 1, i + 1])
+      recv.append(['wait', draw(st.sampled_from([1, 3, 3, 10, 30]))])
+    cpm = draw(st.sampled_from([1, 2]))
   return {'layer': 'writer', 'strategy': draw(st.sampled_from(cachesim.STRATEGIES)), 'lag': 0, 'recv': recv,
           'updates_per_second': ups, 'creates_per_minute': cpm,
           'shutdown_rate': shutdown_rate,
@@ -322,12 +331,95 @@ def execute_writer(ctx, case):
            (['limit change at stop'] if shut is not None else []))
 
 
+def limit_change_race_cases():
+  """The writer's bucket is shared, without a lock, by the reactor thread (limits lowered at shutdown) and the writer
+  thread: one writer-side operation lands between any two lines of setCapacityAndFillRate()."""
+  for (cap, rate) in ((20, 20.0), (1000, 1000.0), (60, 1.0)):
+    for (ncap, nrate) in ((2, 2.0), (10, 10.0)):
+      if ncap >= cap:
+        continue
+      for used in (1, cap - 1):        # (cap - 1: the balance goes negative when the capacity is lowered)
+        for idle in (0.5, 30.0):
+          for other in ('peek', 'drain', 'blocking-drain'):
+            yield {'layer': 'race', 'capacity': cap, 'rate': rate, 'new_capacity': ncap, 'new_rate': nrate, 'used': used,
+                   'idle': idle, 'other': other}
+
+
+def execute_race(ctx, case):
+  from ..sched import Sched
+  b = env.bootstrap()
+  TokenBucket = env.need(b.util, 'TokenBucket')
+  saved = (b.util.time, b.util.sleep)
+  steps = None
+  k = 0
+  worst = 0
+  try:
+    while True:
+      k += 1
+      if steps is not None and k > steps + 2:
+        break
+      sched = Sched([[k, 1]], [b.util.__file__], start=1600000000.0, max_steps=5000)
+      b.util.time = sched.time.time
+      b.util.sleep = sched.sleep
+      bucket = TokenBucket(case['capacity'], case['rate'])
+      for _ in range(case['used']):
+        bucket.drain(1)
+      sched.now += case['idle']                 # a lightly loaded daemon: nothing looked at the bucket for a while
+
+      def reactor_side():
+        bucket.setCapacityAndFillRate(case['new_capacity'], case['new_rate'])
+
+      def writer_side():
+        if case['other'] == 'peek':
+          bucket.peek(1)
+        elif case['other'] == 'drain':
+          bucket.drain(1)
+        else:
+          bucket.drain(1, blocking=True)
+      sched.spawn('reactor', reactor_side)
+      sched.spawn('writer', writer_side)
+      t_change = sched.now
+      sched.run(0)
+      for t in sched.threads:
+        if t.exc is not None:
+          ctx.fail('C20:bucket-raised:%s' % type(t.exc).__name__, 'limit change racing with %s raised %r' % (case['other'], t.exc), case)
+          return
+      if steps is None:
+        steps = sched.steps
+      # everything the bucket grants at this very instant after the change: at most the new burst
+      waited = sched.now - t_change
+      grants = 0
+      while bucket.drain(1) and grants < 5000:
+        grants += 1
+      # what was left after the change (at most the new burst) plus one lazy refill, which credits the time since the
+      # bucket was last looked at, at the NEW rate and capped at the new burst
+      allowed = case['new_capacity'] + min(case['new_capacity'], case['new_rate'] * (case['idle'] + waited)) + 1
+      worst = max(worst, grants)
+      if grants > allowed:
+        ctx.fail('C20:window-exceeded-across-limit-change',
+                 'limits lowered from %s/%s to %s/%s while the writer thread ran %s between two lines of the change (preemption at '
+                 'step %d): %d acquisitions granted at once afterwards, the new burst is %s (one lazy refill on top at most)' % (
+                   case['capacity'], case['rate'], case['new_capacity'], case['new_rate'], case['other'], k, grants,
+                   case['new_capacity']), dict(case, preempt_at=k), 'limit-change')
+        return
+      ctx.evaluations += 1
+  finally:
+    b.util.time, b.util.sleep = saved
+  ctx.note(case, nontrivial=True, classes=['limit change racing with a writer-side %s' % case['other']],
+           key=[case['capacity'], case['new_capacity'], case['used'], case['idle'], case['other']])
+
+
 def execute(ctx, case):
   if case.get('layer') == 'writer':
     return execute_writer(ctx, case)
+  if case.get('layer') == 'race':
+    return execute_race(ctx, case)
   return execute_bucket(ctx, case)
 
 
 def run(ctx):
+  if (ctx.shard or 0) == 0:
+    for case in limit_change_race_cases():
+      execute(ctx, case)
   run_given(ctx, bucket_cases(), execute, ctx.scale(2500, 9000), salt=1)
   run_given(ctx, writer_cases(), execute, ctx.scale(350, 1500), salt=2)
